@@ -5,7 +5,9 @@
 #  thorough : the same decision, plus (a) the identical rule set rebuilt with the second toolchain (go1.26.8 +
 #             x/tools v0.50.0) and compared obligation by obligation, (b) a sensitivity sweep: every patch under
 #             mutants/<id>/ and seeded/<id>*/ is applied to a scratch copy of the CURRENT tree and the property's
-#             rules are run on it; the sweep only feeds the evidence file, the exit code depends on /repo alone.
+#             rules are run on it; (c) a silence sweep: every behaviour-preserving refactoring under variants/ that
+#             touches the property's anchor files is applied the same way and must stay silent. The sweeps only
+#             feed the evidence file, the exit code depends on /repo alone.
 set -u
 cd "$(dirname "$0")"
 VERIF="$(pwd)"
@@ -68,13 +70,40 @@ for pf in "$VERIF"/mutants/"$id"/*.patch "$VERIF"/seeded/"$id"?/patch.diff; do
     missed="$missed $(basename "$(dirname "$pf")")/$(basename "$pf")"
   fi
 done
-python3 - "$OUT/evidence/$id.json" "$cross" "$applied" "$detected" "$missed" <<'PY'
+# (c) silence sweep (evidence only): behaviour-preserving variants that touch the property's anchor files
+anchors=$(python3 - "$VERIF/properties.jsonl" "$id" <<'PY'
 import json,sys
-p,cross,applied,detected,missed=sys.argv[1:6]
+for l in open(sys.argv[1]):
+    o=json.loads(l)
+    if o['id']==sys.argv[2]:
+        print(" ".join((o.get('anchors') or {}).get('files') or []))
+PY
+)
+vapplied=0; vsilent=0; valarm=""
+for pf in "$VERIF"/variants/*.patch; do
+  [ -f "$pf" ] || continue
+  hit=0; for af in $anchors; do grep -q "^+++ b/$af\b" "$pf" && hit=1; done
+  [ $hit = 1 ] || continue
+  S="$T/sweep"; rm -rf "$S"; mkdir -p "$S/repo" "$S/verif/evidence"
+  rsync -a --exclude .git "$REPO/" "$S/repo/"
+  cp "$VERIF/known_findings.json" "$S/verif/" 2>/dev/null
+  (cd "$S/repo" && patch -p1 -s < "$pf" >/dev/null 2>&1) || continue
+  (cd "$S/repo" && GOFLAGS=-mod=mod go build ./... >/dev/null 2>&1) || continue
+  vapplied=$((vapplied+1))
+  if "$VERIF/bin/fpcheck" -prop "$id" -tier quick -repo "$S/repo" -verif "$S/verif" 2>/dev/null | grep -q '^VIOLATION'; then
+    valarm="$valarm $(basename "$pf")"
+  else
+    vsilent=$((vsilent+1))
+  fi
+done
+python3 - "$OUT/evidence/$id.json" "$cross" "$applied" "$detected" "$missed" "$vapplied" "$vsilent" "$valarm" <<'PY'
+import json,sys
+p,cross,applied,detected,missed,vapplied,vsilent,valarm=sys.argv[1:9]
 ev=json.load(open(p))
+ev['coverage']['silence_sweep']={'variants_applied':int(vapplied),'variants_silent':int(vsilent),'variants_alarmed':valarm.split(),'note':'behaviour-preserving refactorings under variants/ that touch the anchor files, applied to a scratch copy of the current tree; alarms listed here are the declared limits of DESIGN 9.7/9.9; evidence only'}
 ev['coverage']['cross_toolchain_go1.26.8_xtools_v0.50.0']=cross
 ev['coverage']['sensitivity_sweep']={'variants_applied':int(applied),'variants_detected':int(detected),'variants_missed':missed.split(),'note':'each patch under mutants/<id>/ and seeded/<id>*/ applied to a scratch copy of the current tree; evidence only, never affects the verdict'}
 json.dump(ev,open(p,'w'),indent=1)
 PY
-echo "$id thorough: cross-toolchain $cross; sensitivity sweep $detected/$applied variants detected${missed:+; missed:$missed}"
+echo "$id thorough: cross-toolchain $cross; sensitivity sweep $detected/$applied breaking changes detected${missed:+; missed:$missed}; silence sweep $vsilent/$vapplied refactorings silent${valarm:+; alarmed:$valarm}"
 exit $rc
